@@ -52,7 +52,8 @@ var targets = []target{
 	{Pkg: "go.brendoncarroll.net/p2p/p/p2pmux", Funcs: []string{"uint16MuxFunc", "uint16DemuxFunc", "uint32MuxFunc",
 		"uint32DemuxFunc", "uint64MuxFunc", "uint64DemuxFunc", "varintMuxFunc", "varintDemuxFunc", "stringMuxFunc",
 		"stringDemuxFunc"}},
-	{Pkg: "go.brendoncarroll.net/p2p/s/fragswarm", Funcs: []string{"appendUvarint", "newMessage", "parseMessage"}},
+	{Pkg: "go.brendoncarroll.net/p2p/s/fragswarm", Funcs: []string{"appendUvarint", "newMessage", "parseMessage",
+		"aggregator.addPart", "aggregator.assemble"}},
 	{Pkg: "go.brendoncarroll.net/p2p/p/p2pke", Funcs: []string{"newMessage", "ParseMessage", "Message.GetNonce",
 		"Message.SetNonce", "Message.HeaderBytes", "Message.Body", "IsInitHello", "IsRespHello", "IsHello", "IsPostHandshake"}},
 	{Pkg: "golang.zx2c4.com/wireguard/replay", Funcs: []string{"Filter.Reset", "Filter.ValidateCounter"}},
@@ -183,6 +184,7 @@ func run(repo string, w io.Writer) (err error) {
 		}
 	}
 	g.analyseMutation()
+	g.analyseNil()
 	g.emitAll(w, repo)
 	return nil
 }
@@ -231,11 +233,13 @@ type fnInfo struct {
 }
 
 type gen struct {
-	fset    *token.FileSet
-	fns     map[string]*fnInfo
-	order   []*fnInfo
-	structs map[string]*structInfo
-	sorder  []*structInfo
+	nilable     map[types.Object]bool
+	elemNilable map[types.Object]bool
+	fset        *token.FileSet
+	fns         map[string]*fnInfo
+	order       []*fnInfo
+	structs     map[string]*structInfo
+	sorder      []*structInfo
 }
 
 func (g *gen) fail(n ast.Node, format string, a ...any) {
